@@ -30,6 +30,11 @@ pub fn gen_foreign_attr(t: &mut Tape, marker: Option<&str>) -> String {
     }
 }
 
+/// the `async_trait` attribute under one of the paths that lead to it (the macro recognises it by its last segment)
+pub fn async_trait_attr(t: &mut Tape) -> String {
+    (*t.pick(&["#[async_trait::async_trait]", "#[::async_trait::async_trait]", "#[async_trait]", "#[axum::async_trait]", "#[crate::prelude::async_trait]"])).to_string()
+}
+
 pub fn gen_attrs(t: &mut Tape, max: usize) -> Vec<String> {
     let n = t.weighted(&[5, 3, 2, 1]).min(max);
     (0..n).map(|_| gen_foreign_attr(t, None)).collect()
@@ -331,6 +336,17 @@ pub fn gen_fn(t: &mut Tape, name: &str, vis: String, cfg: &FnGenCfg) -> (FnSrc, 
             let k = t.choose(bounds.len() + 1);
             let inline = &bounds[..k];
             let wher = &bounds[k..];
+            // sometimes the dependency parameter only has bounds that impose nothing on the implementing type (`?Sized`, a
+            // lifetime), alone or in front of the others
+            let relaxed = match (form == DepsForm::GenericRef, t.weighted(&[10, 1, 1])) {
+                (true, 1) => Some("?Sized"),
+                (_, 2) => Some("'static"),
+                _ => None,
+            };
+            let mut inline: Vec<String> = inline.to_vec();
+            if let Some(r) = relaxed {
+                inline.insert(0, r.to_string());
+            }
             g.params.push(if inline.is_empty() { "D".to_string() } else { format!("D: {}", inline.join(" + ")) });
             if !wher.is_empty() {
                 g.where_preds.push(format!("D: {}", wher.join(" + ")));
